@@ -234,8 +234,10 @@ int fstree_from_file_stream(fstree_t *fs, sqfs_istream_t *fp,
 	for (;;) {
 		ret = istream_get_line(fp, &line, &line_num,
 				       ISTREAM_LINE_LTRIM | ISTREAM_LINE_SKIP_EMPTY);
-		if (ret < 0)
+		if (ret < 0) {
+			sqfs_perror(filename, NULL, ret);
 			return -1;
+		}
 		if (ret > 0)
 			break;
 
